@@ -56,6 +56,11 @@ func (s *Satisfaction) Spec_MethodParameters() interface{} {
 func (s *Satisfaction) Spec_ParseParams(dm *model.DecisionMaker) interface{} {
 	var params SatisfactionParameters
 	utils.Spec_DecodeToStruct(dm.MethodParameters, &params)
+	// C20: thresholds / series parameters are validated against the declared criteria when the request is parsed
+	satisfaction_levels.Spec_Find(params.Function, params.Params, s.functions).Initialize(&model.DecisionMakingParams{
+		Criteria:                  dm.Criteria,
+		NotConsideredAlternatives: dm.KnownAlternatives,
+	})
 	return params
 }
 
